@@ -12,6 +12,7 @@ BUDGET = {
     'C01': (2500, 120000),
     'C02': (1500, 60000),
     'C03': (700, 30000),
+    'C04': (400, 20000),
     'C06': (1200, 40000),
     'C09': (1500, 60000),
     'C10': (1500, 60000),
